@@ -650,6 +650,23 @@ impl<'a, 'ast> Visit<'ast> for FnScan<'a> {
 
     fn visit_expr_method_call(&mut self, m: &'ast syn::ExprMethodCall) {
         let name = m.method.to_string();
+        // R4b in expression position: `recv.m(args)` -> `{ let r__ = recv.m(args); <ghost record> r__ }`
+        if let Some((_, tmpl)) = self.rules.after_method.iter().find(|(n, _)| *n == name).cloned() {
+            let (s0, e0) = brange(m);
+            let (rs, re) = brange(&*m.receiver);
+            let recv = self.src[rs..re].to_string();
+            let idx = match &*m.receiver {
+                syn::Expr::Index(ix) => {
+                    let (a, b) = brange(&*ix.index);
+                    self.src[a..b].to_string()
+                }
+                _ => String::new(),
+            };
+            let call = self.src[s0..e0].to_string();
+            let text = format!("{{ let r__ = {}; {} r__ }}", call, tmpl.replace("$idx", &idx).replace("$recv", &recv));
+            self.push_edit(s0, e0, text, "R4:after-method-expr", vec![call]);
+            return;
+        }
         // R3 method -> free function
         if let Some((_, f)) = self.rules.methods.iter().find(|(n, _)| *n == name).cloned() {
             let (s, e) = brange(m);
